@@ -683,6 +683,9 @@ func runProducerScenario(t testing.TB, rec *vRec, sc *prodScenario) {
 				m = &ProducerMessage{Topic: simTopic}
 			}
 			val := fmt.Sprintf("v%d|", st.ID)
+			if st.Size > len(val) { // the re-used object carries a payload of another size
+				val += strings.Repeat("y", st.Size-len(val))
+			}
 			m.Metadata = st.ID
 			m.Partition = int32(st.Part)
 			m.Key = nil
